@@ -4,7 +4,7 @@
    check_case instantiates the Section parameters of the model with these recorded tables and compares. *)
 From Coq Require Import List String Bool NArith ZArith.
 Import ListNotations.
-From VF Require Export common.Json gen.Gen_C07 C07.Model.
+From VF Require Export common.Json gen.Gen_C07 C07.Model C07.StrictModel.
 Open Scope string_scope.
 Open Scope list_scope.
 
@@ -112,7 +112,7 @@ Definition check_case (c : case) : bool :=
   && recorded_explained (c_env c) (c_doc c)
   && match c_strict c with
      | None => true
-     | Some (comp, ok) => Bool.eqb (strict_ok Fixed (c_doc c) comp) ok
+     | Some (comp, ok) => Bool.eqb (strict_ok SFixed (c_doc c) comp) ok
      end.
 
 Fixpoint mismatches_from (i : nat) (cs : list case) : list nat :=
